@@ -58,7 +58,8 @@ def describe(rec):
 
 def cause(rec):
     """coarse class of a violating observation, so that the three replay files per rule show different causes"""
-    if rec["q"].get("conn", "none") != "none":
+    conn = rec["q"].get("conn", "none")
+    if conn == "id" or (conn != "none" and rec.get("_pid") == "C12"):
         return "connection-header"
     if rec["out"].get("clOnly"):
         return "content-length-regenerated"
@@ -77,6 +78,7 @@ def handle(ctx, viols, tracefile):
     seen, first, rest = set(), [], []
     for lineno, rule in todo:
         rec = V.read_line(tracefile, lineno)
+        rec["_pid"] = ctx.id
         k = (rule, cause(rec))
         (rest if k in seen else first).append((lineno, rule, rec))
         seen.add(k)
@@ -111,6 +113,10 @@ def run(ctx):
         gen = "Forward.Gen.cfg"
     # Leg G (+ the rules on the composed prediction of every emitted cell: invariant RulesHoldG)
     cells, n = V.leg_g(ctx, "ForwardGen", gen, "CELL", "cells.jsonl", workers=8)
+    ctx.cov["legs"]["G:" + gen]["rules_hold_on_predicted_outcome_of_cells"] = n   # invariant RulesHoldG
+    # TLC emits the cells in a run-dependent order: sort, so that a seed selects the same cells every time
+    srt = sorted(open(cells).read().splitlines(True))
+    open(cells, "w").writelines(srt)
     sample, reps = (4000, 1) if quick else (0, 2)
     obs = os.path.join(ctx.scratch, "obs.ndjson")
     V.build_harness(ctx)
